@@ -147,10 +147,11 @@ def run(rep: Report, prog: Program, tier: str) -> None:
         return NotImplemented
 
     ev = Evaluator(prog, mod, None, {}, hook)
-    vals = [bytes(range(1, n + 1)) for n in range(0, 5)]
+    nvals = 9 if tier == "thorough" else 5  # value lengths 0..8 cover two full residue cycles
+    vals = [bytes(range(1, n + 1)) for n in range(0, nvals)]
     n_cases = 0
     for k in (1, 2, 3):
-        for combo in itertools.product(range(5), repeat=k):
+        for combo in itertools.product(range(nvals), repeat=k):
             params = [(0x8000 + i, vals[ln]) for i, ln in enumerate(combo)]
             n_cases += 1
             try:
@@ -206,7 +207,7 @@ def run(rep: Report, prog: Program, tier: str) -> None:
             rep.ok("C08-PAD", f"DataChunk with {ln} bytes of user data", sample=f"length field {16 + ln}, {len(raw)} bytes on the wire")
         else:
             rep.fail(mk_finding(prog, PROP, "C08-PAD", dbytes, dbytes.node, f"DataChunk with {ln} bytes serialises to {len(raw or b'')} bytes / bad length field", construct=f"data chunk pad {ln}"))
-    for l1, l2 in itertools.product(range(0, 5), range(0, 5)):
+    for l1, l2 in itertools.product(range(0, nvals), range(0, nvals)):
         b1, b2 = bytes(range(10, 10 + l1)), bytes(range(50, 50 + l2))
         try:
             chunks = chunk_bytes(10, b1) + chunk_bytes(11, b2)
